@@ -419,7 +419,9 @@ func restartBody(g lstore.Geometry, depth int) func() {
 				o := objs[k-len(objs)]
 				d, err := s.Get(o.Digest)
 				vsched.Obs("G%s=%s", o.Name, status.Code(err))
-				checkRead("Get", o.Name, o.Content, d, err, m, g.Spare > 0, false)
+				// not strict: on the persistent store a released block returns to the allocator only after the state
+				// file was rewritten, so a refresh can legitimately find no free block (UNAVAILABLE)
+				checkRead("Get", o.Name, o.Content, d, err, m, false, false)
 			case k == 2*len(objs):
 				n := s.StepSyncers(context.Background(), 1)
 				vsched.Obs("sync=%d", n)
